@@ -14,9 +14,10 @@ PENDING = {}
 
 def main():
     checks, na = [], []
+    ready = set(open(os.path.join(HERE, 'ready.txt')).read().split())
     for pid in ALL:
-        if not os.path.exists(os.path.join(HERE, 'props', pid.lower() + '.py')):
-            na.append({'property_id': pid, 'reason': PENDING.get(pid, 'check not built yet (see DESIGN.md section 5 for the plan)')})
+        if pid not in ready or not os.path.exists(os.path.join(HERE, 'props', pid.lower() + '.py')):
+            na.append({'property_id': pid, 'reason': PENDING.get(pid, 'check still being built and integrated in this round (see DESIGN.md section 5 for the plan); not yet claimed')})
             continue
         mod = importlib.import_module('props.' + pid.lower())
         checks.append({
